@@ -440,6 +440,11 @@ def _item(ex, e, obj, args, kwargs, p):
     return [(app("np_item", asV(obj)), p)]
 
 
+@method("tolist", "A-numpy-array")
+def _tolist(ex, e, obj, args, kwargs, p):
+    return [(app("np_tolist", asV(obj)), p)]
+
+
 @method("_asdict", "A-cpython")
 def _asdict(ex, e, obj, args, kwargs, p):
     return [(app("nt_asdict", asV(obj)), p)]
